@@ -212,7 +212,7 @@ pub fn check(rep: &Report) {
         };
         rep.distinct(crate::rng::fnv64(bp.src.as_bytes()));
         for f in &bp.flows { rep.count(&format!("flow={}", f), 1); }
-        if i < 2 { rep.sample(json!({"binary_flow_program": bp.src, "expected": bp.expect.show()})); }
+        if rep.want_sample() { rep.sample(json!({"binary_flow_program": bp.src, "expected": bp.expect.show()})); }
         let mut scheds = sched_variants(&mut rng, n_sched);
         for (k, s) in scheds.iter_mut().enumerate() { if k % 2 == 1 { s.qp = QuantumPolicy::Fixed(*rng.pick(&[1usize, 1, 2, 3])); } }
         for cfg in &scheds {
